@@ -134,8 +134,8 @@ class PostgreSQLQueryBuilder(QueryBuilder):
         # a field of a foreign table is rejected whether or not a star makes it redundant
         self._validate_returning_term(term)  # type:ignore[arg-type]
 
-        if self._return_star:
-            # Do not add select terms after a star is selected
+        if self._return_star and self._is_plain_column(term):  # type:ignore[arg-type]
+            # Do not add select terms after a star is selected (a column under an alias of its own is not redundant)
             return
 
         if isinstance(term, Star):
